@@ -5,9 +5,10 @@ Two models: the transaction monad of C05 (publication = commit-success callbacks
 -/
 import DefraModel.Proofs.TxnAtomic
 import DefraModel.Proofs.EventsFifo
+import DefraModel.Proofs.EventsExact
 namespace Defra.Props.C20
 open Defra Defra.Kv
-open Defra.Events (Bus Cmd Name SubscribedTo matching fifo)
+open Defra.Events (Bus Cmd Name SubscribedTo matching fifo pubs Unsubscribed)
 
 /-- the body of one document write (`collection.save` / `applyDelete`): store the commit's block, register
     ONE update notification for it, then whatever else the write does -/
@@ -95,6 +96,103 @@ theorem subscribers_agree (cmds : List Cmd) (b : Bus) (i j : Nat) (names : List 
   rw [(fifo cmds b i names hi ki).1, (fifo cmds b j names hj kj).1]
   simp
 
+/-! ### branchable collections: one more notification per write, for the collection-level commit -/
+
+/-- one document write on a branchable collection (`collection.save`, l.798-855): the document-level block,
+    its notification, then the collection-level block that links to it and ITS notification -/
+structure BWrite where
+  cid : Nat
+  key : Key
+  bytes : Val
+  colCid : Nat
+  colKey : Key
+  colBytes : Val
+
+def writeDocsB : List BWrite → Prog Unit
+  | [] => .pure ()
+  | w :: more => .set w.key w.bytes (.onSuccess w.cid (.set w.colKey w.colBytes (.onSuccess w.colCid (writeDocsB more))))
+
+theorem run_writeDocsB_callbacks (ws : List BWrite) (t : Txn) :
+    (run (fun _ => false) (writeDocsB ws) t).1 = .ok () ∧
+    (run (fun _ => false) (writeDocsB ws) t).2.callbacks = t.callbacks ++ ws.flatMap (fun w => [w.cid, w.colCid]) := by
+  induction ws generalizing t with
+  | nil => simp [writeDocsB, run]
+  | cons w more ih =>
+    simp only [writeDocsB, run, Bool.false_eq_true, if_false]
+    refine ⟨(ih _).1, ?_⟩
+    rw [(ih _).2]
+    simp [List.flatMap_cons, List.append_assoc]
+
+/-- **branchable collections: exactly two notifications per written document — the document-level commit
+    and then the collection-level commit — in write order, or none at all**, under ANY storage faults -/
+theorem two_events_per_branchable_write (fails : Nat → Bool) (ws : List BWrite) (store : Store) :
+    ((withTxn fails (writeDocsB ws) store).published = [] ∧ (withTxn fails (writeDocsB ws) store).store = store) ∨
+    ((withTxn fails (writeDocsB ws) store).published = ws.flatMap (fun w => [w.cid, w.colCid])) := by
+  rcases withTxn_cases fails (writeDocsB ws) store with ⟨_, hs, hp⟩ | ⟨a', t, hrun, _, _, _, h4⟩
+  · exact Or.inl ⟨hp, hs⟩
+  · have hff := run_ok_eq_faultfree fails _ _ a' t hrun
+    have hcb := (run_writeDocsB_callbacks ws { snapshot := store }).2
+    rw [hff] at hcb
+    exact Or.inr (by rw [h4, hcb]; simp)
+
+/-! ### the bus over whole histories -/
+
+/-- **no duplicates, nothing invented, nothing out of order — over any history**: whatever any subscriber
+    does (subscribe, unsubscribe, re-subscribe, any number of times), whatever the others do and whenever
+    the bus is closed, what it received is an in-order sub-sequence of the publications queued -/
+theorem received_is_a_subsequence_of_published (cmds : List Cmd) (b : Bus) (id : Nat) :
+    ∃ l, (Events.run b cmds).received id = b.received id ++ l ∧ l.Sublist (pubs cmds) :=
+  Events.received_sublist cmds b id
+
+/-- a subscriber that is not subscribed receives nothing, whatever is published -/
+theorem nothing_without_a_subscription (cmds : List Cmd) (b : Bus) (id : Nat)
+    (h : Unsubscribed b id) (hk : ∀ c ∈ cmds, c.notSubscribe id = true) :
+    (Events.run b cmds).received id = b.received id :=
+  Events.unsubscribed_receives_nothing cmds b id h hk
+
+/-- a closed bus delivers nothing -/
+theorem nothing_after_close (cmds : List Cmd) (b : Bus) (h : b.closed = true) : Events.run b cmds = b :=
+  Events.run_closed cmds b h
+
+theorem run_append (b : Bus) (xs ys : List Cmd) : Events.run b (xs ++ ys) = Events.run (Events.run b xs) ys := by
+  simp [Events.run, List.foldl_append]
+
+/-- **the lifetime of a subscription**: subscribe, any stretch of commands of the others (publications,
+    other subscribers coming and going), unsubscribe, then anything that is not a new subscription of the
+    same id: the subscriber has received EXACTLY the matching publications of the stretch, in order — the
+    ones before it subscribed and after it unsubscribed are not delivered, none in between is lost -/
+theorem subscription_lifetime (b : Bus) (id : Nat) (names : List Name) (mid post : List Cmd)
+    (hopen : b.closed = false)
+    (hmid : ∀ c ∈ mid, c.keeps id = true) (hpost : ∀ c ∈ post, c.notSubscribe id = true) :
+    (Events.run b (Cmd.subscribe id names :: mid ++ [Cmd.unsubscribe id] ++ post)).received id =
+      b.received id ++ matching names mid := by
+  have hs := Events.subscribe_subscribes b id names hopen
+  obtain ⟨hr, hsub⟩ := fifo mid (Events.step b (.subscribe id names)) id names hs hmid
+  have h0 : (Events.step b (.subscribe id names)).received id = b.received id := by simp [Events.step, hopen]
+  have e : Events.run b (Cmd.subscribe id names :: mid ++ [Cmd.unsubscribe id] ++ post) =
+      Events.run (Events.step (Events.run (Events.step b (.subscribe id names)) mid) (.unsubscribe id)) post := by
+    show Events.run (Events.step b (.subscribe id names)) (mid ++ [Cmd.unsubscribe id] ++ post) = _
+    rw [run_append, run_append]; rfl
+  rw [e]
+  have hun : Unsubscribed (Events.step (Events.run (Events.step b (.subscribe id names)) mid) (.unsubscribe id)) id := by
+    rcases Events.unsubscribe_unsubscribes (Events.run (Events.step b (.subscribe id names)) mid) id with h | h
+    · exact h
+    · rw [hsub.1] at h; cases h
+  rw [Events.unsubscribed_receives_nothing post _ id hun hpost]
+  have key : ∀ B : Bus, (Events.step B (.unsubscribe id)).received id = B.received id := by
+    intro B; simp only [Events.step]; split <;> rfl
+  rw [key, hr, h0]
+
+/-- **a GraphQL subscription yields exactly one result per matching committed change**: the subscription
+    handler (`internal/db/subscriptions.go: handleSubscription`) evaluates its request once per update event it
+    receives and yields a result iff the announced document passes the filter; over a stretch in which it is
+    subscribed its results are therefore exactly the filter-passing publications, one each, in order -/
+theorem subscription_results (pass : Name × Nat → Bool) (cmds : List Cmd) (b : Bus) (id : Nat) (names : List Name)
+    (hsub : SubscribedTo b id names) (hkeep : ∀ c ∈ cmds, c.keeps id = true) :
+    ((Events.run b cmds).received id).filter pass =
+      (b.received id).filter pass ++ (matching names cmds).filter pass := by
+  rw [(fifo cmds b id names hsub hkeep).1, List.filter_append]
+
 /-! non-vacuity -/
 example : (withTxn (fun _ => false) (writeDocs [(1, [1], [10]), (2, [2], [20])]) (fun _ => none)).published = [1, 2] := by
   decide
@@ -102,5 +200,13 @@ example : (withTxn (fun n => n == 2) (writeDocs [(1, [1], [10]), (2, [2], [20])]
   decide
 example : ((Events.run {} [.subscribe 1 ["update"], .subscribe 2 ["*"], .publish "update" 7, .unsubscribe 2,
     .publish "update" 8, .publish "merge" 9]).received 1) = [("update", 7), ("update", 8)] := by decide
+
+example : (withTxn (fun _ => false) (writeDocsB [⟨1, [1], [10], 2, [2], [20]⟩, ⟨3, [3], [30], 4, [4], [40]⟩]) (fun _ => none)).published
+    = [1, 2, 3, 4] := by decide
+example : (withTxn (fun n => n == 4) (writeDocsB [⟨1, [1], [10], 2, [2], [20]⟩, ⟨3, [3], [30], 4, [4], [40]⟩]) (fun _ => none)).published
+    = [] := by decide
+/-- a subscriber that comes, goes and comes back: the publication in between is not delivered -/
+example : ((Events.run {} [.subscribe 1 ["update"], .publish "update" 7, .unsubscribe 1, .publish "update" 8,
+    .subscribe 1 ["update"], .publish "update" 9, .close, .publish "update" 10]).received 1) = [("update", 7), ("update", 9)] := by decide
 
 end Defra.Props.C20
